@@ -71,7 +71,7 @@ ViewClauses(e, c, os, ts, k, rs, vs, mark) ==
      <<"order_frame", e.order_frame = OrderFrameOf(os)>>,
      <<"trade_frame", e.trade_frame = TradeFrameOf(ts)>>,
      <<"env_getters", ("env" \in DOMAIN e) =>
-          /\ e.env.time = k * c.step
+          /\ e.env.time = c.t0 + k * c.step
           /\ e.env.bid_ask = <<l2[1], l2[2]>>
           /\ e.env.bid_vol = l2[3] /\ e.env.ask_vol = l2[4]
           /\ e.env.best_bid_vol = l2[5][1][1] /\ e.env.best_ask_vol = l2[6][1][1]
@@ -85,13 +85,24 @@ ViewClauses(e, c, os, ts, k, rs, vs, mark) ==
           /\ e.env.trade_volumes = vs>> >>
 
 \* ---- submissions (C10) --------------------------------------------------------
-NewRows(e) == IF e.k = "new" THEN e.rows ELSE <<>>
+\* the instruction rows of one submitting call, normalised: [k |-> "new", side, vol, tr, price] | [k |-> "cancel", id] |
+\* [k |-> "modify", id, p, v] | [k |-> "noop"].  k = "mixed" is a StepEnvNumpy.submit_instructions call whose rows are of
+\* several kinds (logged row by row in `ins`); a call that raised (off-grid price) is logged with the rows queued before it did.
+InsOf(e) ==
+  CASE e.k = "new"    -> [i \in 1..Len(e.rows) |-> [k |-> "new", side |-> e.rows[i].side, vol |-> e.rows[i].vol, tr |-> e.rows[i].tr, price |-> e.rows[i].price]]
+    [] e.k = "cancel" -> [i \in 1..Len(e.ids) |-> [k |-> "cancel", id |-> e.ids[i]]]
+    [] e.k = "modify" -> <<[k |-> "modify", id |-> e.id, p |-> e.p, v |-> e.v]>>
+    [] e.k = "mixed"  -> e.ins
+NewRows(e) == SelectSeq(InsOf(e), LAMBDA x : x.k = "new")
+NewBefore(ins, i) == Cardinality({j \in 1..i : ins[j].k = "new"})
 SubmitClauses(e, c, os, ts) ==
-  LET no == Decode(e)  rows == NewRows(e) IN
+  LET no == Decode(e)  rows == NewRows(e)  ins == InsOf(e) IN
   << <<"trades_untouched", DecodeT(e) = ts>>,
      <<"existing_orders_untouched", IsPrefix(os, no)>>,
      <<"one_new_order_per_row", Len(no) = Len(os) + Len(rows)>>,
-     <<"returned_ids", e.k = "new" => e.ret = [i \in 1..Len(rows) |-> Len(os) + i - 1]>>,
+     <<"returned_ids", ("ret" \in DOMAIN e /\ e.k \in {"new", "mixed"}) =>
+          /\ Len(e.ret) = Len(ins)
+          /\ \A i \in 1..Len(ins) : e.ret[i] = (IF ins[i].k = "new" THEN Len(os) + NewBefore(ins, i) - 1 ELSE -1)>>,
      <<"new_orders_as_submitted", \A i \in 1..Len(rows) :
           LET o == no[Len(os) + i]  r == rows[i] IN
           /\ o.status = "New" /\ o.side = r.side /\ o.vol = r.vol /\ o.start = r.vol /\ o.trader = r.tr
@@ -108,7 +119,7 @@ ReachableInStep(o1, o2) ==
 \* ---- a step, as far as it can be read without knowing the schedule (C08, C04) ----
 StepClauses(e, c, os, ts, k) ==
   LET no == Decode(e)  nt == DecodeT(e)
-      start == k * c.step
+      start == c.t0 + k * c.step
       nnew == Cardinality({i \in 1..Len(os) : os[i].status = "New"})
       placed == {i \in 1..Len(os) : os[i].status = "New"}
   IN
@@ -181,7 +192,7 @@ SimEnd ==
 
 Reset ==
   /\ l <= Len(Rec) /\ Rec[l].op = "reset"
-  /\ LET e == Rec[l]  c == [tick |-> e.tick, step |-> e.step, mode |-> e.mode] IN
+  /\ LET e == Rec[l]  c == [tick |-> e.tick, step |-> e.step, mode |-> e.mode, t0 |-> IF "t0" \in DOMAIN e THEN e.t0 ELSE 0] IN
      /\ bad' = FirstFalse(ViewClauses(e, c, <<>>, <<>>, 0, <<>>, <<>>, 0))
      /\ cfg' = c
   /\ nsteps' = 0 /\ orders' = <<>> /\ trades' = <<>> /\ recs' = <<>> /\ tvs' = <<>> /\ tmark' = 0
@@ -190,26 +201,32 @@ Reset ==
            ELSE NoSim
   /\ l' = IF bad' = "" THEN l + 1 ELSE l
 
+\* verdict ("" = every clause holds) and successor values of one non-reset event, as operators, so that
+\* PyEnvTrace.tla (the same trace with the specification's environment run alongside) reuses them
+CallK2(e)  == IF e.op = "step" THEN nsteps + 1 ELSE nsteps
+CallRs2(e) == IF e.op = "step" THEN Append(recs, L2From(Decode(e), cfg.tick)) ELSE recs
+CallMk2(e) == IF e.op = "step" THEN Len(trades) ELSE tmark
+CallVs2(e) == IF e.op = "step" THEN Append(tvs, TvFrom(DecodeT(e), CallMk2(e))) ELSE tvs
+CallVerdict(e) ==
+  LET no == Decode(e)  nt == DecodeT(e)
+      c1 == CASE e.op = "submit" -> FirstFalse(SubmitClauses(e, cfg, orders, trades))
+              [] e.op = "step"   -> FirstFalse(StepClauses(e, cfg, orders, trades, nsteps))
+              [] OTHER -> (IF no = orders /\ nt = trades THEN "" ELSE "call_changes_nothing_observable")
+      c2 == FirstFalse(ViewClauses(e, cfg, no, nt, CallK2(e), CallRs2(e), CallVs2(e), CallMk2(e)))
+      c3 == SimClause(e)
+  IN IF c3 # "" THEN "CLAUSE:" \o c3 ELSE IF c1 # "" THEN "CLAUSE:" \o c1 ELSE IF c2 # "" THEN "CLAUSE:" \o c2 ELSE ""
+
+CallUpdate(e, verdict) ==
+  /\ bad' = verdict
+  /\ sm' = SimNext(e)
+  /\ nsteps' = CallK2(e) /\ orders' = Decode(e) /\ trades' = DecodeT(e)
+  /\ recs' = CallRs2(e) /\ tvs' = CallVs2(e) /\ tmark' = CallMk2(e)
+  /\ l' = IF bad' = "" THEN l + 1 ELSE l
+  /\ UNCHANGED cfg
+
 Call ==
   /\ l <= Len(Rec) /\ Rec[l].op \notin {"reset", "sim_end"} /\ bad = ""
-  /\ LET e == Rec[l]
-         no == Decode(e)  nt == DecodeT(e)
-         isStep == e.op = "step"
-         k2 == IF isStep THEN nsteps + 1 ELSE nsteps
-         rs2 == IF isStep THEN Append(recs, L2From(no, cfg.tick)) ELSE recs
-         mk2 == IF isStep THEN Len(trades) ELSE tmark
-         vs2 == IF isStep THEN Append(tvs, TvFrom(nt, mk2)) ELSE tvs
-         c1 == CASE e.op = "submit" -> FirstFalse(SubmitClauses(e, cfg, orders, trades))
-                 [] e.op = "step"   -> FirstFalse(StepClauses(e, cfg, orders, trades, nsteps))
-                 [] OTHER -> (IF no = orders /\ nt = trades THEN "" ELSE "call_changes_nothing_observable")
-         c2 == FirstFalse(ViewClauses(e, cfg, no, nt, k2, rs2, vs2, mk2))
-         c3 == SimClause(e)
-     IN
-     /\ bad' = IF c3 # "" THEN "CLAUSE:" \o c3 ELSE IF c1 # "" THEN "CLAUSE:" \o c1 ELSE IF c2 # "" THEN "CLAUSE:" \o c2 ELSE ""
-     /\ sm' = SimNext(e)
-     /\ nsteps' = k2 /\ orders' = no /\ trades' = nt /\ recs' = rs2 /\ tvs' = vs2 /\ tmark' = mk2
-     /\ l' = IF bad' = "" THEN l + 1 ELSE l
-  /\ UNCHANGED cfg
+  /\ CallUpdate(Rec[l], CallVerdict(Rec[l]))
 
 TNext == Reset \/ Call \/ SimEnd
 TSpec == TInit /\ [][TNext]_tvars
